@@ -33,6 +33,8 @@ def explore(ctx):
     lines = []
     fe.falsify_c13(ctx, asm, lines)
     fe.correspondence(ctx, asm, lines, [])
+    import files_engine
+    files_engine.whole_correspondence(ctx, asm, 10 if ctx.quick() else 60)     # the object of the C13_whole_* theorems
 
 
 def replay(ctx, rec):
